@@ -10,6 +10,9 @@ import (
 
 func findOverlappingBlocks(tblIdx1 [][]string, tblIdx2 [][]string, off1, prevEnd int) (start, end int) {
 	n := len(tblIdx2)
+	if n == 0 {
+		return 0, 0
+	}
 
 	// find starting block in table 2
 	start = -1
